@@ -657,9 +657,39 @@ class Enumerator(object):
                     p.value = ('try', p.value)
                 out.append(p)
             return out
-        if k in ('Call', 'MethodCall') and any(self.has_ctl(a) for a in H.call_args(node) if S.closure_node(a) is None):
-            # control flow inside an argument (rare): evaluate arguments path-wise left to right
-            raise Unrecognised('control flow inside call arguments at %s' % node.get('sp'))
+        if k in ('Call', 'MethodCall') and not node.get('_anf') and any(self.needs_paths(a) for a in H.call_args(node) if S.closure_node(a) is None):
+            # an argument branches (itself, or through a helper that is read through): evaluate the arguments left to right,
+            # path by path, bind each to a fresh name and make the call with those -- `f(g(x), h(y))` as `let a = g(x); let b = h(y); f(a, b)`
+            args = H.call_args(node)
+            last = max(i for i, a in enumerate(args) if S.closure_node(a) is None and self.needs_paths(a))
+            cur = [path]
+            new_args = list(args)
+            for i, a in enumerate(args[:last + 1]):
+                pa = H.peel(a)
+                simple = S.closure_node(a) is not None or pa.get('k') in ('Local', 'Lit', 'Def') or (pa.get('k') in ('AddrOf', 'Field') and H.peel(pa.get('e') or {}).get('k') in ('Local', 'Field'))
+                if simple:
+                    continue
+                self._anf_n = getattr(self, '_anf_n', 0) + 1
+                sid = -(2000000 + self._anf_n)
+                nxt = []
+                for q in cur:
+                    if q.done:
+                        nxt.append(q)
+                        continue
+                    for q2 in self.run(a, q):
+                        if not q2.done:
+                            q2.env[sid] = q2.value
+                        nxt.append(q2)
+                cur = nxt
+                new_args[i] = {'k': 'Local', 'id': sid, 'name': '$a%d' % self._anf_n, 'ty': a.get('ty'), 'sp': a.get('sp')}
+            node2 = dict(node, recv=new_args[0], args=new_args[1:], _anf=True) if k == 'MethodCall' else dict(node, args=new_args, _anf=True)
+            out = []
+            for q in cur:
+                if q.done:
+                    out.append(q)
+                else:
+                    out.extend(self.run(node2, q))
+            return out
         # leaf expression
         t = self.leaf(node, path)
         if k == 'Assign' and node['l'].get('k') == 'Local':
